@@ -824,6 +824,7 @@ func (c *Client) Start() (addr net.Addr, err error) {
 		c.exited = true
 	}()
 
+	verifhook.Point("client.start.waiting", 0)
 	// Start a goroutine that is going to be reading the lines
 	// out of stdout
 	linesCh := make(chan string)
